@@ -109,6 +109,12 @@ def analyse(ctx):
                     c.symtab_reset[name] = what
             if f['output'].replace(' ', '').replace('->', '') == 'usize' and any(i_.get('self') and not i_.get('mut') for i_ in f['inputs']):
                 c.symtab_pure.add(name)
+                # ... and, when it is the length of the outermost scope of the global context, it is the mark a later cut-back can use
+                tail = stmts[-1] if stmts else None
+                te = (tail.get('expr') if tail and tail['k'] == 's_expr' else None)
+                if len(stmts) == 1 and te is not None and te.get('k') == 'mcall' and te['method'] == 'len' and not te['args'] and \
+                        render(te['recv']).replace(' ', '') in ('self.contexts[0].symbols[0]',):
+                    c.symtab_marks.add(name)
             if 'Option<Symbol>' in f['output'].replace(' ', '') and name != 'resolve':
                 c.symtab_resolve.add(name)
         from rules import tables
